@@ -168,6 +168,14 @@ def main():
             for part in ('read', 'rt'):
                 run.case(R.jhash(ad, style, part), nontrivial(ad), {'seed': seed, 'style': style, 'features': B.features(ad)} if part == 'read' else None,
                          lambda: case_generated(run, ad, style, part), {'kind': 'eblif', 'seed': seed, 'ad': ad, 'style': style, 'part': part})
+    if cfg.get('corners'):
+        plain = {'seed': 1, 'bb_pos': 'after', 'comments': 'none', 'header_gap': False, 'continuation': 0, 'order': 'as-is', 'conn_pos': 'end',
+                 'io': 'one-line', 'blank': 0, 'info_order': 'cname-first', 'latch': 'five'}
+        for name, ad in B.corner_ads():
+            for style in (plain, dict(plain, continuation=0.3, order='shuffle', seed=2)):
+                for part in ('read', 'rt'):
+                    run.case(R.jhash('corner', name, style, part), True, None, lambda: case_generated(run, ad, style, part),
+                             {'kind': 'eblif', 'corner': name, 'ad': ad, 'style': style, 'part': part})
     for z in cfg.get('files', []):
         run.case(R.jhash(os.path.basename(z)), True, {'file': os.path.basename(z)}, lambda: case_file(run, z),
                  {'kind': 'eblif-file', 'file': z}, limit=cfg.get('file_limit', 60))
